@@ -116,6 +116,19 @@ def _worker_call(args):
         while tb.tb_next is not None:
             tb = tb.tb_next
         in_harness = tb.tb_frame.f_code.co_filename.startswith(str(VERIF)) or "McFile" in str(e) or "McFS" in str(e)
+        structural = isinstance(e, (KeyError, AttributeError, IndexError, TypeError, ValueError)) and "McFile" not in str(e) and "McFS" not in str(e)
+        if (where is None or in_harness) and structural:
+            # the harness could not even read the result (a group, variable or attribute it navigates to is missing or has
+            # another structure): on the unchanged tree this never happens, so it is a verdict about the tree under test
+            text = "".join(traceback.format_exception(e))
+            out = LenientOut(
+                ok=False,
+                outcome=f"result-not-interpretable:{type(e).__name__}",
+                nontrivial=True,
+                failures=[{"sig": {"kind": "result-not-interpretable", "exc": type(e).__name__}, "detail": f"the harness cannot interpret what the library returned: {type(e).__name__}: {str(e)[:160]} | case {jkey(case)[:300]}"}],
+                traceback=text[-1500:],
+            )
+            return idx, case, out
         if where is None or in_harness:  # harness bug (or a gap of the harness' filesystem), not a verdict
             return idx, case, {"harness_error": "".join(traceback.format_exception(e))[-4000:]}
         # an exception escaping from the library on an input the check considers valid is a verdict
